@@ -247,7 +247,7 @@ def audit_many(ctx, repo, items, threads=4, via_revparse=True):
         for i, (v, w, q) in enumerate(items):
             if v != variant:
                 continue
-            if via_revparse and len(q["others"]) == 1 and i % (200 if ctx.thorough else 50):
+            if via_revparse and len(q["others"]) == 1 and i % 200:
                 rp.append(i)
             else:
                 mb.append(i)
@@ -386,7 +386,7 @@ def run(ctx):
     ctx.sample({"world": {"par": mid["par"], "time": mid["time"]}, "query": mid["queries"][-1]})
 
     # binding C: git on the generated queries: every two-tip query, and a stride of the queries with several others
-    budget = 600 if not ctx.thorough else 4000
+    budget = 250 if not ctx.thorough else 4000
     two, many = [], []
     for w, qs in wq:
         for q in qs:
@@ -397,7 +397,7 @@ def run(ctx):
     stride = max(1, len(many) // budget + 1)
     items = two + many[ctx.seed % stride:: stride]
     # a sample through the commit-graph variants as well
-    items += [(v, w, q) for (_n, w, q) in items[::12] for v in ("full", "part")]
+    items += [(v, w, q) for (_n, w, q) in items[::7] for v in ("full", "part") if len(q["others"]) == 1]
     t0 = time.time()
     answers = audit_many(ctx, repo, items)
     for (variant, w, q), got in zip(items, answers):
@@ -456,7 +456,7 @@ def random_part(ctx, binary):
         qs = []
         for _ in range(6):
             first = ctx.rng.randint(max(1, n - 8), n)
-            k = ctx.rng.choice([1, 1, 1, 2, 2, 3, 4])
+            k = ctx.rng.choice([1, 1, 1, 1, 1, 2, 3, 4])
             others = sorted({ctx.rng.randint(max(1, n - 10), n) for _ in range(k)})
             qs.append({"first": first, "others": others})
         worlds.append(d)
@@ -465,7 +465,7 @@ def random_part(ctx, binary):
     repo.add_graph_variants(ctx, part_pick)
     res = run_gix(ctx, binary, repo, wq)
     items = [("none", w, q) for w, qs in wq for q in qs]
-    answers = audit_many(ctx, repo, items, via_revparse=False)
+    answers = audit_many(ctx, repo, items)
     events, meta = [], []
     a = 0
     for k, (w, qs) in enumerate(wq):
